@@ -451,28 +451,20 @@ def template_frame_test(ctx):
     """RichTraceback marks a frame as a template frame by a record element that is None for ordinary frames and the template's line text otherwise; that text may be the empty string (blank template line), so the readers must test identity with None, not truthiness"""
     db = ctx.db
     init = db.func("exceptions.RichTraceback._init")
-    # which element holds the template line: the one given None in the plain record and a line of the split template source in the other
-    tuples = [t for g in db.with_helpers(init) for t in walk_func(g) if isinstance(t, ast.Tuple) and len(t.elts) >= 7 and isinstance(t.ctx, ast.Load)]
-    ctx.require(len(tuples) >= 2, "RichTraceback._init: the two record tuples were not found (anchor)")
-    plain = [t for t in tuples if sum(1 for e in t.elts if isinstance(e, ast.Constant) and e.value is None) >= 3]
-    full = [t for t in tuples if t not in plain]
-    ctx.require(plain and full, "RichTraceback._init: plain / template record tuples not told apart (anchor)")
+    # which element holds the template line: the one the readers hand out as the `line` (4th item) of a template frame
     ks = []
-    for k, e in enumerate(full[0].elts):
-        if not (k < len(plain[0].elts) and isinstance(plain[0].elts[k], ast.Constant) and plain[0].elts[k].value is None):
+    for name, fn in sorted(db.methods("exceptions.RichTraceback").items()):
+        if fn is init:
             continue
-        cands = [e]
-        if isinstance(e, ast.Name):
-            cands = [s_.value for s_ in walk_func(init) if isinstance(s_, ast.Assign) and any(isinstance(t, ast.Name) and t.id == e.id for t in s_.targets)]
-        for d in cands:
-            for sub in ast.walk(d):
-                if isinstance(sub, ast.Subscript) and isinstance(sub.value, ast.Name) and not isinstance(sub.slice, ast.Slice):
-                    bdefs = [s_.value for s_ in walk_func(init) if isinstance(s_, ast.Assign) and any(isinstance(t, ast.Name) and t.id == sub.value.id for t in s_.targets)]
-                    if any(isinstance(c_, ast.Call) and isinstance(c_.func, ast.Attribute) and c_.func.attr in ("split", "splitlines") for b in bdefs for c_ in ast.walk(b)):
-                        ks.append(k)
-    ctx.require(ks, "RichTraceback._init: element holding the template line not identified (anchor)")
-    k = ks[-1]
-    ctx.ok("line-element", db.where(full[0]), "template line text is element %d of a record, None for ordinary frames" % k)
+        for g in db.with_helpers(fn):
+            for t in walk_func(g):
+                if isinstance(t, ast.Tuple) and len(t.elts) == 4 and isinstance(t.ctx, ast.Load):
+                    idx = [_elem_index(g, e) for e in t.elts]
+                    if all(isinstance(i_, int) for i_ in idx) and idx != [0, 1, 2, 3] and idx[2] == 2:
+                        ks.append((idx[3], t))
+    ctx.require(ks, "RichTraceback: the reader that builds (template file, template line number, function, template line) from a record was not found (anchor)")
+    k = ks[0][0]
+    ctx.ok("line-element", db.where(ks[0][1]), "the template line text is element %d of a record (None for ordinary frames, possibly '' for a blank template line)" % k)
     n = 0
     for name, fn in sorted(db.methods("exceptions.RichTraceback").items()):
         if fn is init:
